@@ -367,7 +367,7 @@ fn zero_glue() -> Value {
 
 /// May the item stand in the replacement run of a discretionary?
 fn replaceable(it: &Value) -> bool {
-    it["k"] == "box" || (it["k"] == "kern" && it["x"] == 0)
+    it["k"] == "box" || it["k"] == "kern"
 }
 
 fn well_formed(items: &[Value]) -> bool {
@@ -574,7 +574,17 @@ fn gen_instance(rng: &mut Rng, max_breaks: usize) -> Value {
             break;
         }
         // a separator
-        match rng.below(20) {
+        match rng.below(21) {
+            20 => {
+                // a discretionary whose replacement run ends in an explicit kern, then glue
+                let prel: Vec<i64> = (0..rng.range(0, 2)).map(|_| rng.range(0, 2) * u).collect();
+                let postl: Vec<i64> = (0..rng.range(0, 1)).map(|_| rng.range(0, 2) * u).collect();
+                items.push(dc(&prel, &postl, 2));
+                items.push(bx(rng.range(1, 4) * u));
+                items.push(kx(rng.range(0, 2) * u));
+                items.push(mk_glue(rng));
+                breaks += 3;
+            }
             0..=9 => {
                 items.push(mk_glue(rng));
                 breaks += 1;
